@@ -20,7 +20,8 @@ def registry_case(draw):
     n = draw(st.integers(1, 12))
     ops = []
     for _ in range(n):
-      k = draw(st.sampled_from(["append", "attr", "event_name", "event_number", "name_for", "is_inner"]))
+      k = draw(st.sampled_from(["append", "attr", "event_name", "event_number", "name_for", "is_inner",
+                                "scratch_registry"]))
       ops.append([k, draw(ident if k == "attr" else anyname)])
     # "grow": the registry holds at least that many names before the case starts (numbers beyond
     # CPython's shared small integers, where equal numbers are no longer the same object)
@@ -64,7 +65,7 @@ class C25(Prop):
   rule = ("Two generated families. Sequential: 1-12 operations on the process-wide registry from "
           "append(name), attribute access (identifier that is not already an attribute of the "
           "registry object), Event(name), Event(number), name_for_signal(number), "
-          "is_inner_signal(name or number) - numbers are handed over as fresh int objects equal to the "
+          "is_inner_signal(name or number), and building and using a second private SignalSource object - numbers are handed over as fresh int objects equal to the "
           "registered one, and a third of the cases first grow the registry to 300 names so that "
           "numbers lie beyond the interpreter's shared small integers; names are identifiers, arbitrary text (including the "
           "empty string) and the ten built-in names; model seeded from the live registry. "
@@ -164,6 +165,25 @@ class C25(Prop):
             if got != name:
               raise PropertyViolation("name_for_signal(%r) gave %r, expected %r" % (model[name], got, name),
                                       "C25:name_for_signal")
+        elif k == "scratch_registry":
+          # a second, private registry object (the class is public; the library's own tests build
+          # one): what it binds and answers must not leak into the process-wide registry
+          from miros.event import SignalSource
+          scratch = SignalSource()
+          first = len(scratch) + 1
+          for j in range(4):
+            scratch.append("vf_scratch_%s_%d" % (name, j))
+          for j in range(4):
+            got = scratch.name_for_signal(first + j)
+            if got != "vf_scratch_%s_%d" % (name, j):
+              raise PropertyViolation("a private registry names its number %d %r" % (first + j, got),
+                                      "C25:name_for_signal")
+          # the numbers 11.. of the private registry are user signals of the process-wide one too
+          for nm, num in list(signals.items())[10:16]:
+            got = signals.name_for_signal(int(str(num)))
+            if got != nm:
+              raise PropertyViolation("after a private registry was used, name_for_signal(%r) of the process-wide "
+                                      "registry gave %r, expected %r" % (num, got, nm), "C25:name_for_signal")
         elif k == "is_inner":
           for arg in (name, model.get(name)):
             if arg is None:
